@@ -96,11 +96,9 @@ def cases(L, tier, seed):
         c = len(ny) if hasattr(ny, '__len__') else (len(nx) if hasattr(nx, '__len__') else 2)
         mi = np.arange(1, r * c + 1, dtype=float).reshape(r, c) / 7
         yield RT.Normalization(), MI.channel_capacity_normalization, dict(mi=mi, n_x=nx, n_y=ny), ('normalization', nx, ny)
-        if hasattr(nx, '__len__') == hasattr(ny, '__len__'):
-            from contracts import channelcap as CC
-            form = 'array' if hasattr(nx, '__len__') else 'scalar'
-            yield CC.ChannelCapacity(form), MI.channel_capacity_normalization, \
-                dict(mi=mi.copy(), n_x=np.array(nx) if form == 'array' else nx, n_y=np.array(ny) if form == 'array' else ny), ('normalization-proved-contract', nx, ny)
+        from contracts import channelcap as CC
+        yield CC.ChannelCapacity('run-time'), MI.channel_capacity_normalization, \
+            dict(mi=mi.copy(), n_x=np.array(nx) if hasattr(nx, '__len__') else nx, n_y=np.array(ny) if hasattr(ny, '__len__') else ny), ('normalization-proved-contract', nx, ny)
     # rejected inputs
     X = np.array([[0, 1], [1, 2], [2, 0]])
     for bad, nm in ((np.array([[0, 1], [1, -1], [2, 0]]), 'negative-id'), (np.array([[0, 1], [1, 3], [2, 0]]), 'id-too-large'),
@@ -145,10 +143,10 @@ def replay(L, p):
         from contracts import channelcap as CC
         fr = lambda v: v[0] / v[1] if isinstance(v, list) else float(v)
         if key == 'channel_capacity_normalization':
-            form = 'array' if isinstance(m['n_x'], list) else 'scalar'
+            form = 'replay'
             args = dict(mi=np.array([[fr(v) for v in row] for row in m['mi']], dtype=float).reshape(len(m['mi']), -1),
-                        n_x=np.array(m['n_x'], dtype=int) if form == 'array' else int(m['n_x']),
-                        n_y=np.array(m['n_y'], dtype=int) if form == 'array' else int(m['n_y']))
+                        n_x=np.array(m['n_x'], dtype=int) if isinstance(m['n_x'], list) else int(m['n_x']),
+                        n_y=np.array(m['n_y'], dtype=int) if isinstance(m['n_y'], list) else int(m['n_y']))
             c, f = CC.ChannelCapacity(form), MI.channel_capacity_normalization
         else:
             form = 'array' if isinstance(m['n'], list) else 'scalar'
